@@ -19,7 +19,7 @@ def sh(cmd, **kw):
 
 def one(job):
     wt, scratch, pid = job
-    r = sh(f"cd {V} && VERIF_EVIDENCE_DIR={scratch} ./check {pid} --tier quick --root {wt}", timeout=900)
+    r = sh(f"cd {V} && VERIF_NO_SELFTEST=1 VERIF_EVIDENCE_DIR={scratch} ./check {pid} --tier quick --root {wt}", timeout=900)
     rules = sorted({l.split("rule=")[1].split()[0] for l in r.stdout.splitlines() if "rule=" in l})
     err = [l for l in r.stdout.splitlines() if l.startswith("ANALYSIS-ERROR") or "SELFTEST-FAILURE" in l]
     return pid, r.returncode, rules, err[:3]
@@ -35,7 +35,7 @@ for name in names:
         if a.returncode != 0:
             out[name] = {"error": "patch does not apply to /repo HEAD: " + a.stderr[:200]}
             continue
-        with cf.ThreadPoolExecutor(8) as ex:
+        with cf.ThreadPoolExecutor(14) as ex:
             res = list(ex.map(one, [(wt, scratch, p) for p in pids]))
         meta = json.load(open(f"{V}/seeded/{name}/meta.json"))
         out[name] = {"property": meta["property"],
